@@ -168,6 +168,9 @@ class ExprMixin:
             ntf = namedtuple_fields(m, nm)
             if ntf is not None:
                 return Const(('namedtuple', nm, ntf))
+            if isinstance(val, ast.Call) and isinstance(val.func, ast.Name) and val.func.id == 'object' and not val.args \
+                    and not val.keywords:
+                return Const(('sentinel', f'{m.name}.{nm}'))      # NAME = object(): one object, equal to nothing else
             if isinstance(val, ast.Constant) and isinstance(val.value, (int, float)):
                 if self.symbolic_globals and (self.symbolic_globals is True and nm in PHYSICAL_CONSTANTS
                                               or (self.symbolic_globals is not True and nm in self.symbolic_globals)):
@@ -204,7 +207,21 @@ class ExprMixin:
                     pass
                 finally:
                     self.cur = prev
-            if _constant_expr(val) or (getattr(self, 'literal_tables', False) and isinstance(val, (ast.Dict, ast.Tuple, ast.List, ast.Set))
+            if isinstance(val, ast.Subscript) and (dotted(val.value) or '').split('.')[-1] in ('s_', 'index_exp') and \
+                    all(isinstance(n_, (ast.Subscript, ast.Slice, ast.Tuple, ast.Constant, ast.UnaryOp, ast.USub, ast.Load,
+                                        ast.Name, ast.Attribute)) for n_ in ast.walk(val)):
+                # NAME = np.s_[1:]: a constant index expression
+                prev, self.cur = self.cur, _ModuleScope(m, self.cur)
+                try:
+                    from .state import State
+                    return self.eval(val, State())
+                except Exception:
+                    pass
+                finally:
+                    self.cur = prev
+            int_tuple = isinstance(val, ast.Tuple) and val.elts and all(
+                isinstance(e_, ast.Constant) and type(e_.value) is int for e_ in val.elts)   # _AXES = (0, 1): immutable
+            if _constant_expr(val) or int_tuple or (getattr(self, 'literal_tables', False) and isinstance(val, (ast.Dict, ast.Tuple, ast.List, ast.Set))
                                        and _table_expr(val)):
                 # a module constant derived from literals and other constants (e.g. -2j*pi): its value
                 prev, self.cur = self.cur, _ModuleScope(m, self.cur)
